@@ -289,7 +289,10 @@ class Model:
             words_plain = self.shell_words(h['sh'], False)
             extra = []
             for l in layers:
-                extra.extend(self.args_value(l['args'], l.get('last')))
+                for a in l['args']:
+                    # an appended argument becomes part of the command line: the shell divides it into words
+                    extra.extend(a['shwords'] if 'shwords' in a else self.args_value([a]))
+                extra.extend(self.args_value([], l.get('last')))
             alts = [words_subst + extra]
             if words_plain != words_subst:
                 alts.append(words_plain + extra)
